@@ -137,7 +137,10 @@ def window(ctx, cfg, fs):
             for r in sw.roots:
                 if r.kind == 'bin' and r.extra['op'] in ('Gt', 'Lt', 'Ne', 'Ge', 'Le'):
                     sides = [provenance(b, r.extra[k_], r.site[0], r.site[1], through=None) for k_ in ('a', 'b')]
-                    has_len = [bool(x) and all(q.kind == 'call' and q.call.is_(r'^args::inner::State::len$') for q in x) for x in sides]
+                    # the number of present items must be counted on the very state whose window is trimmed (the narrowed clone),
+                    # not on the caller's state, whose count includes items outside the window
+                    trimmed = {scopes.state_id(b, x_.args[0], x_.bb) for x_ in b.calls() if x_.is_(r'State::set_scope$') and any(q.kind == 'call' and q.call.bb == trims[0].bb for q in provenance(b, x_.args[1], x_.bb, 'term', through=None))}
+                    has_len = [bool(x) and all(q.kind == 'call' and q.call.is_(r'^args::inner::State::len$') and scopes.state_id(b, q.call.args[0], q.call.bb) in trimmed for q in x) for x in sides]
                     has_span = [bool(x) and all(q.kind == 'bin' and q.extra['op'].startswith('Sub') for q in x) for x in sides]
                     if (has_span[0] and has_len[1] and r.extra['op'] in ('Gt', 'Ne') and s_ == sw.target(True)) or (has_len[0] and has_span[1] and r.extra['op'] in ('Lt', 'Ne') and s_ == sw.target(True)) \
                             or (has_span[0] and has_len[1] and r.extra['op'] == 'Le' and s_ == sw.target(False)) or (has_len[0] and has_span[1] and r.extra['op'] == 'Ge' and s_ == sw.target(False)):
